@@ -424,6 +424,10 @@ class Interp(object):
                     return base.attr(e.attr)
                 except Undetermined:
                     return ("__exprmeth__", base, e.attr)
+            if isinstance(base, dict) and base.get("__record__"):
+                if e.attr in base:
+                    return base[e.attr]
+                raise Undetermined("record attribute .%s" % e.attr)
             if isinstance(base, dict) and base.get("__self__"):
                 if e.attr in base:
                     return base[e.attr]
